@@ -227,7 +227,12 @@ def run_case(spec):
                                 if s not in may:
                                     bad('e2e-fusion-peptide-not-a-product', f'{ent} {s} (tool {tool})')
             except Exception as ex:
-                bad('e2e-callvariant-crash', f'{tool}: {type(ex).__name__}: {str(ex)[:200]}')
+                import traceback
+                from harness.monitors import c01
+                te = {'type': type(ex).__name__, 'msg': str(ex)[:300], 'tb': traceback.format_exc()[-1800:]}
+                counters['e2e_callvariant_crashes'] = 1
+                viol.append({'kind': 'e2e-callvariant-crash', 'mech': c01.crash_mech(te, {}),
+                             'msg': f'{tool}: {type(ex).__name__}: {str(ex)[:200]}'})
         feat = (tuple(sorted({e['modes'] for e in fusions})), tuple(sorted({(e['gd'].strand, e['ga'].strand) for e in fusions})),
                 any(e['unknown_gene'] for e in fusions), any(e['antisense'] for e in fusions), thr['min_confidence'],
                 max(len(g.txs) for g in ref.genes))
